@@ -69,6 +69,11 @@ func AmountFromString(val string) (Amount, error) {
 		return a, fmt.Errorf("amount must contain 0 or 1 decimal separators: %v", val)
 	}
 
+	// Only digits are allowed in each part: ParseInt would also take a sign.
+	if strings.ContainsAny(x[0], "+-") || (l == 2 && strings.ContainsAny(x[1], "+-")) {
+		return a, fmt.Errorf("invalid number '%v', unexpected sign", val)
+	}
+
 	// Parse the "major" part
 	v, err := strconv.ParseInt(x[0], 10, 64)
 	if err != nil {
@@ -83,8 +88,15 @@ func AmountFromString(val string) (Amount, error) {
 		if err != nil {
 			return a, fmt.Errorf("invalid decimal number '%v', %w", val, err)
 		}
+		if len(x[1]) > 18 {
+			return a, fmt.Errorf("invalid decimal number '%v', too many decimal places", val)
+		}
 		e = uint32(len(x[1]))
-		v = v * intPow(10, e)
+		p := intPow(10, e)
+		if v > (math.MaxInt64-v2)/p {
+			return a, fmt.Errorf("invalid number '%v', out of range", val)
+		}
+		v = v * p
 		v += v2
 	}
 
